@@ -222,6 +222,8 @@ def scenario(B, p):
     B.install_rng()
     if p["mode"] == "full":
         out = B.run(PROG_FULL, env)
+        B.native_only(lambda NB: NB.prove("[native replay] every random answer is drawn from the random module's own "
+                                         "generator (the one random.seed governs)", NB.rng_consumed()))
         B.observe("raised", out["raised"])
         B.reach("full")
         B.prove("randgraph does not raise", out["raised"] is None)
